@@ -16,6 +16,7 @@ import (
 	"crypto/sha1"
 	"crypto/sha256"
 	"crypto/sha512"
+	"crypto/x509"
 	"encoding/asn1"
 	"encoding/pem"
 	"fmt"
@@ -32,10 +33,11 @@ import (
 )
 
 type entity struct {
-	name    string
-	cfg     Cfg
-	profile *Profile
-	json    bool // write as .json instead of .yaml
+	name     string
+	cfg      Cfg
+	profile  *Profile
+	json     bool   // write as .json instead of .yaml
+	artifact []byte // pre-existing artifact file (an imported issuer): the entity itself is not generated and yields no case
 }
 
 type rawCert struct {
@@ -274,6 +276,9 @@ func runHierarchy(tag string, ents []entity, profiles []*Profile) int {
 		} else {
 			put(e.name+".yaml", yamlOf(e.cfg.tree()))
 		}
+		if e.artifact != nil {
+			m[e.name+".pem"] = &fstest.MapFile{Data: e.artifact, Mode: 0644, ModTime: t0.Add(time.Minute)}
+		}
 	}
 	status := "ok"
 	func() {
@@ -325,6 +330,9 @@ func runHierarchy(tag string, ents []entity, profiles []*Profile) int {
 	for ei, e := range ents {
 		if firstFailed >= 0 && !planFailed {
 			break // BulkUpdate stops at the first error: later entities were never attempted
+		}
+		if e.artifact != nil {
+			continue
 		}
 		o := obs[e.name]
 		var issuerEnt *entity
@@ -380,8 +388,30 @@ func runHierarchy(tag string, ents []entity, profiles []*Profile) int {
 
 func cqZbig(z *big.Int) string { return "(" + z.String() + ")%Z" }
 
+// C07 statements the byte-level model cannot flag because it reproduces the code faithfully: a configured path length of
+// zero, and a user notice without any member (recorded findings F5 and F22)
+func knownFindingChecks(tag string, e entity, o *observed) {
+	for _, x := range e.cfg.Exts {
+		if x.Kind == "bc" && x.HasContent && x.HasPl && x.PathLen == 0 {
+			if c, err := x509.ParseCertificate(o.der); err != nil || !(c.MaxPathLen == 0 && c.MaxPathLenZero) {
+				fmt.Fprintf(out, "SELFFAIL %s %s: basicConstraints was configured with pathLen 0 but the certificate carries no pathLenConstraint (F5)\n", tag, e.name)
+			}
+		}
+		if x.Kind == "cp" && x.HasContent {
+			for _, p := range x.Pols {
+				for _, q := range p.Quals {
+					if q.Notice != nil && q.Notice.Org == "" && !q.Notice.HasNums && q.Notice.Text == "" {
+						fmt.Fprintf(out, "SELFFAIL %s %s: an empty userNotice is emitted as a PolicyQualifierInfo without qualifier body, which RFC 5280 does not allow (F22)\n", tag, e.name)
+					}
+				}
+			}
+		}
+	}
+}
+
 // checks made with the standard library only
 func selfChecks(tag string, e entity, issuer *entity, o *observed, obs map[string]*observed) {
+	knownFindingChecks(tag, e, o)
 	if e.cfg.Manip.Pk != "" || e.cfg.Manip.PkAlg != "" {
 		// the certified key is deliberately not the entity's key
 	} else if _, err := pubFromBits(e.cfg.KeyAlg, o.spkiBits); err != nil {
